@@ -650,6 +650,24 @@ func (e *Engine) instrMods(fn *ssa.Function, in ssa.Instruction, ms *modSet, r *
 					return
 				}
 			}
+			// a function-typed parameter with a contract ("opt funcparam")
+			if fct := e.contractFor(fn); fct != nil {
+				vname := c.Value.Name()
+				if u, ok := c.Value.(*ssa.UnOp); ok && u.Op == token.MUL {
+					if a, ok := u.X.(*ssa.Alloc); ok {
+						vname = a.Comment
+					}
+				}
+				for _, pr := range strings.Fields(fct.Opts["funcparam"]) {
+					kv := strings.SplitN(pr, "=", 2)
+					if len(kv) == 2 && kv[0] == vname {
+						if ct, ok := e.cs.ByKey[fnPkgPath(fn)+"::"+kv[1]+".call"]; ok {
+							e.contractMods(ct, ms)
+							return
+						}
+					}
+				}
+			}
 			ms.all = true
 			return
 		}
